@@ -1,6 +1,7 @@
 package cypher
 
 import (
+	"slices"
 	"sort"
 	"strings"
 
@@ -121,6 +122,14 @@ func WithErrors[T Fallible](fallible T, errs ...error) T {
 
 type errorContext struct {
 	errors []error
+}
+
+// copy returns an error context with its own backing array: sharing the slice would let AddError
+// on a copy and on the original overwrite each other's entries.
+func (s *errorContext) copy() errorContext {
+	return errorContext{
+		errors: slices.Clone(s.errors),
+	}
 }
 
 func (s *errorContext) AddError(err error) {
@@ -338,9 +347,7 @@ func (s *SinglePartQuery) copy() *SinglePartQuery {
 	}
 
 	return &SinglePartQuery{
-		errorContext: errorContext{
-			errors: s.errors,
-		},
+		errorContext: s.errorContext.copy(),
 
 		ReadingClauses:  Copy(s.ReadingClauses),
 		UpdatingClauses: Copy(s.UpdatingClauses),
@@ -476,9 +483,7 @@ func (s *UpdatingClause) copy() *UpdatingClause {
 	}
 
 	return &UpdatingClause{
-		errorContext: errorContext{
-			errors: s.errors,
-		},
+		errorContext: s.errorContext.copy(),
 
 		Clause: Copy(s.Clause),
 	}
@@ -656,9 +661,7 @@ func (s *Create) copy() *Create {
 	}
 
 	return &Create{
-		errorContext: errorContext{
-			errors: s.errors,
-		},
+		errorContext: s.errorContext.copy(),
 
 		Unique:  s.Unique,
 		Pattern: Copy(s.Pattern),
@@ -1155,9 +1158,7 @@ func (s *FunctionInvocation) copy() *FunctionInvocation {
 	}
 
 	return &FunctionInvocation{
-		errorContext: errorContext{
-			errors: s.errors,
-		},
+		errorContext: s.errorContext.copy(),
 
 		Distinct:  s.Distinct,
 		Namespace: Copy(s.Namespace),
